@@ -121,3 +121,18 @@ prop("C01", bounds=CRASH_BOUNDS,
              "rejection of a torn header that equals neither image rests on FNV not colliding (concrete headers here, so it is evaluated, not assumed)",
      harnesses=variants("txfile.VerifCrash", "recovery by the real Open code after a crash at any I/O boundary yields S or the complete S' (only once Commit was entered), recovered file fully operational",
                         {"nops": 1, "pre": 1}, {"nops": 2, "pre": 1, "fullmask": 1}, vs=(0, 1, 4), quick_vs=(0, 4)))
+
+# ------------------------------------------------------------------ C08
+prop("C08",
+     bounds="committed prefix (2 pages + 1 symbolic transaction), one symbolic transaction of <= 1 (quick) / 2 (thorough) operations whose Commit meets an injected failure: "
+            "kind in {write error, short write + error, sync, truncate, size, mmap}, the 0..4th call of that kind after Begin, burst 1..2; follow-up in {commit, flush+abort, none}; reopen. "
+            "Open/create with a failure at the 0..2nd call of each kind. Writer lemma: 3 messages, failure at any write / the data sync / the final sync",
+     outside=PROG_OUT + "; failures of truncate/mmap during Commit need a file that grows past its mapping (not reached at these sizes; the open-time harness covers mmap/size/truncate failures); OS-level fault semantics are the stub's contract",
+     harnesses=[
+         H("txfile.VerifFault", "failing I/O during Commit: error, no panic, no hang, last committed state kept, follow-up transactions work, reopen shows that state or the complete failed attempt (final sync only)",
+           "nops=1 quick / 2 thorough", quick={"params": {"nops": 1}}, thorough={"params": {"nops": 2}, "max_paths": 300000, "budget": "1500s"}),
+         H("txfile.VerifFault", "same on an unbounded file", "variant 3", tiers=("thorough",), thorough={"params": {"nops": 2, "variant": 3}, "max_paths": 300000, "budget": "1500s"}),
+         H("txfile.VerifOpenFault", "failing I/O while creating/opening: error (never a panic), no mapping left, later open works", "existing/new x prealloc x 6 kinds x 3 ordinals"),
+         H("txfile.VerifWriterSticky", "real writer: after the first failure nothing reaches the target until the reset sync; waiters released with the error; writer usable again", "3 messages (thorough: 4 + 2 preemptions)",
+           thorough={"params": {"msgs": 4, "preempt": 2}}),
+     ])
